@@ -26,6 +26,22 @@ CLAIMED["C10"] = dict(
     note="Trusted: z3/cvc5, ref/relocspec.py (field layouts from the ISA manuals), the proxy engine (every path cross-checked concretely). Layer 3 is spec-free (injectivity), so a wrong-but-injective field layout is C08's business. Genuine defects of the unchanged tree are listed per call site in known_findings.json (regions proven tight by the solver: a violation outside them is still reported). Not claimed: operands through the assembler text path; relocation types without a relocspec entry.",
     technique=TECH)
 
+CLAIMED["C11"] = dict(
+    level="model_checking", design="§4 C11",
+    text="The REAL linker (link/merge/layout/do_relocations/get_symbol_id_value) runs on an object holding one relocated instruction (base encoding from the real instruction class) and its target symbol, under a layout whose memory base addresses, symbol offset, addend and surrounding bytes are symbolic; for every relocation type of riscv, rvc, arm, thumb, x86_64 (+ generic data relocations), in two placements: the link fails, or the symbol table value is section address + offset, the field decoded per the ISA manual designates exactly S+A (or S+A-P), no other bit or byte changes; RISC-V hi/lo pairs are checked jointly.",
+    note="Trusted: z3/cvc5, ref/relocspec.py, the proxy engine (every path re-run concretely). Bounded: 32-bit (x86_64 47-bit) 4-aligned bases, offsets < 2**20. Known findings (signed fields accepting the unsigned upper half, thumb BL/B<c>.W range) are listed per relocation type with solver-checked tight regions. Not claimed: other ISAs, relaxable jumps (C13), multi-object placement (C12), addends ignored by the relocation class.",
+    technique=TECH)
+CLAIMED["C08"] = dict(
+    level="model_checking", design="§4 C08",
+    text="RISC-V only (RV32IM, Zicsr, C). Every instruction class of ppci's riscv/rvc ISA that has a syntax and an encoding is run through the real encode() (and the real relocation for pc-relative labels) with ALL operands symbolic (register numbers 0..31, CSR numbers, immediates in +-2**33); the emitted word is decoded by a decoder written from the ISA manual (ref/rv32.py). Obligation per path: rejected, or the printed mnemonic and exactly the printed operand values, for all operands in the manual's documented ranges.",
+    note="Trusted: z3, ref/rv32.py (self-validated each run: table disjointness, 76 byte strings of the repo's own assembler tests, solver proof that two independent field-slicing variants agree), the proxy engine. Genuine RVC defects are listed as known findings (3-bit register fields aliasing x4..x7, ignored rs operand, reserved encodings). Outside: the other ten ISAs (no reference decoder available), F/D extensions, selection pseudo-instructions, hi/lo relocated fields (C10/C11).",
+    technique=TECH)
+CLAIMED["C07"] = dict(
+    level="model_checking", design="§4 C07",
+    text="RISC-V only. The symbolic encodings of every non-system riscv/rvc instruction class are executed by a manual-derived RV32IMC single-step semantics (ref/rv32.py) from a fully symbolic machine state. Frame: only defined_registers (as the real class declares them) change. Non-interference: a second state agreeing on used_registers, pc, sp and memory and arbitrary elsewhere yields the same defined registers, memory and next pc.",
+    note="Trusted: z3, ref/rv32.py (validated as under C08), the proxy engine. Known findings in RVC (undeclared link/sp writes, shift/andi rd not declared read, consequences of the C08 register aliasing) are listed. Outside: other ISAs, CSR/system, F/D, per-call extra_uses/clobbers. Memory is 8 periodic symbolic bytes plus a probe address (sufficient for one instruction).",
+    technique=TECH)
+
 NOT_APPLICABLE = {
     "C04": "property is about native execution of whole gcc/ppci-compiled programs; no x86-64 semantics model is in reach and running binaries is enumeration of concrete runs, not solver-based checking",
     "C06": "dataflow property over uninterpreted instruction semantics: a checker would be tag propagation in which a solver decides nothing",
